@@ -44,11 +44,14 @@ def eval_case(case):
                 lp = d["T"][p]["l_st"]
                 wi = [k for k, s in enumerate(li) if s == O.WORKING]
                 wp = [k for k, s in enumerate(lp) if s == O.WORKING]
+                # a link declared on the successor's side only (BaseTask(input_task_list=...)) is not seen by the
+                # backward run: recorded finding C17/order-onesided (known_findings.json)
+                one = "-onesided" if any(a == p and b_ == i for (a, b_, _k) in case.get("edges_in", [])) else ""
                 if wi and wp:
                     if rev and min(wi) <= max(wp):
-                        out.append(O.V("(d) task logged WORKING before an FS predecessor stopped WORKING", "C17/order", (p, i)))
+                        out.append(O.V("(d) task logged WORKING before an FS predecessor stopped WORKING", "C17/order" + one, (p, i)))
                     if (not rev) and max(wi) >= min(wp):
-                        out.append(O.V("(d) (unreversed log) successor must work before its predecessor", "C17/order-unrev", (p, i)))
+                        out.append(O.V("(d) (unreversed log) successor must work before its predecessor", ("C17/order" + one) if one else "C17/order-unrev", (p, i)))
     # (c) a later forward simulate equals the forward simulate of a never-backward-simulated copy
     fwd = case["fwd"]
     b2, tr2 = sim.run_ops(case, want_snaps=False, ops=[fwd], built=b)
@@ -83,6 +86,10 @@ def gen_cases(rng, n, every_crash=False):
         c = gen.gen_project(rng)
         if rng.random() < 0.8:
             gen.simplify_feasible(rng, c)
+        if rng.random() < 0.12:
+            # links declared on one side only (BaseTask(input_task_list=...), BaseWorkplace(input_workplace_list=...)):
+            # reversing twice still has to give back exactly the lists there were
+            gen.usage_variants(rng, c, p=0.7)
         o = gen.gen_sim_op(rng, c)
         o["op"] = "backward"
         o["due"] = rng.random() < 0.5
